@@ -258,7 +258,7 @@ class Engine:
                     if last:
                         self.stats["capped_sites"] += 1
                         self.stats["capped_open"] += 1
-                        self.path.caps.append((kind, tried + 1))
+                        self.path.caps.append((kind, tried + 1, t))
                     else:
                         self.work.append(self.trail + [(v, False)])
                         self.stats["forks"] += 1
